@@ -654,17 +654,11 @@ __offs(struct zif_s z[static 1U], int32_t t)
 	if (LIKELY(t >= z->cache.prev && t < z->cache.next)) {
 		/* use the cached offset */
 		return z->cache.offs;
-	} else if (t >= z->cache.next) {
-		min = z->cache.trno + 1;
-		max = zif_ntrans(z);
-	} else if (t < z->cache.prev) {
-		max = z->cache.trno;
-		min = 0;
-	} else {
-		/* we shouldn't end up here at all */
-		min = 0;
-		max = 0;
 	}
+	/* the cache of a fresh object is all naught, it cannot be used
+	 * to narrow the search down */
+	min = 0;
+	max = zif_ntrans(z);
 	return (z->cache = __find_zrng(z, t, min, max)).offs;
 }
 
